@@ -11,6 +11,17 @@ NOTE = ("Trusted base: z3; the proxy semantics and environment models (vf/sym*.p
 CLAIMED = {
     "C01": ("model_checking", "For every shape of the stated catalogue and all field values within the bounds, z3 shows on every path that parse(bytes(m)) == m, "
             "that the decoded message denotes the abstract value (oneof selection, optional None-ness, nested presence) and that re-encoding is byte-identical.", "4 C01"),
+    "C02": ("model_checking", "Encode direction: betterproto's symbolic output is decoded by a strict spec decoder and must denote the abstract value on every path; decode direction: "
+            "every legal re-encoding produced by the spec encoder (permutation, unpacked, split packed run, padded varints, duplicated scalars, oneof members in any order, "
+            "interleaved unknown fields) must decode to the same value. The spec models are checked against google.protobuf in both directions at every path witness.", "4 C02"),
+    "C08": ("model_checking", "For (newer, older) schema pairs obtained by deleting subsets of fields and all values within the bounds, z3 shows the older reader/writer round trip is lossless; "
+            "unknown runs with symbolic number, wire type, payload and position are re-emitted byte-identically in arrival order.", "4 C08"),
+    "C09": ("model_checking", "len(m) is kept as a symbolic sum of size_varint terms and proved equal to the concrete length of bytes(m) on every path; dump / SIZE_DELIMITED dump / SerializeToString "
+            "are proved equal to bytes(m) and to the spec's varint length prefix.", "4 C09"),
+    "C10": ("model_checking", "Sequences of 1-3 messages of mixed types with symbolic values are written with SIZE_DELIMITED and read back; the cut point is a symbolic choice over every byte "
+            "of the stream; every load either raises or returns the written message.", "4 C10"),
+    "C17": ("model_checking", "Arbitrary symbolic byte strings (and valid encodings with a symbolic truncation point, a symbolic corrupted byte, or a substituted wire type) are fed to parse; a strict "
+            "spec decoder decides per path whether the input is malformed (must raise) or well-formed (must decode to the spec's view with well-typed fields, mismatching wire types kept as unknown).", "4 C17"),
     "C16": ("model_checking", "All integers of [-2**63, 2**64) and [-2**80, -2**63) and every decoder input of length <= 11 are decided by z3 on 12-80 paths per harness; "
             "per-kind single-field encodings are proved equal to an independent spec encoder that is checked against google.protobuf at each witness.", "4 C16"),
 }
